@@ -9,6 +9,10 @@ let runners : (string * (string -> string list -> string list list -> (string ->
   ("C02", Drv_c02.run);
   ("C06", Drv_c06.run);
   ("C16", Drv_c16.run);
+  ("C07", Drv_c07.run);
+  ("C11", Drv_c11.run);
+  ("C05", Drv_c05.run);
+  ("C12", Drv_c12.run);
 ]
 
 (* runners whose input is the harness OUTPUT ("<id> <line>" per line, model_input = "impl"):
@@ -52,6 +56,7 @@ let load_impl path =
 let () =
   let prop = Sys.argv.(1) and file = Sys.argv.(2) in
   if Array.length Sys.argv > 3 then load_impl Sys.argv.(3);
+  if prop = "C12" then (Drv_c12.run_impl file (fun s -> print_string s; print_char '\n'); exit 0);
   let run = try Stdlib.List.assoc prop runners with Not_found -> (prerr_endline ("no model runner for " ^ prop); exit 2) in
   if Stdlib.List.mem prop impl_runners && Array.length Sys.argv = 3 then begin
     run_on_impl run file (fun s -> print_string s; print_char '\n'); exit 0
